@@ -139,7 +139,7 @@ class CallMixin:
             self.bound_ref(v)
             if declared:
                 # class invariant: objects that exist before the call were built by their __init__
-                self._add_pc(z3.Implies(r < smt.FRESH_BASE, v != smt.ABSENT))
+                self._add_axiom(z3.Implies(r < smt.FRESH_BASE, v != smt.ABSENT))
             if self.implied(v != smt.ABSENT):
                 return v
             if not self.branch(v == smt.ABSENT):
@@ -169,7 +169,7 @@ class CallMixin:
                 self.assume(self.type_formula(f(smt.cls_of(Val.r(obj))), spec))
         for k, lk in have:
             self.use_class(k)
-            self._add_pc(f(z3.IntVal(k.cid)) == self.class_attr_val(lk[2], name, lk[1]))
+            self._add_axiom(f(z3.IntVal(k.cid)) == self.class_attr_val(lk[2], name, lk[1]))
         return smt.simp(f(smt.cls_of(Val.r(obj))))
 
     def class_attr_val(self, owner: ClassInfo, name: str, expr: ast.expr):
@@ -181,7 +181,7 @@ class CallMixin:
             v = self.static_val(('global', owner.qualname, name), key=f'global:{owner.qualname}:{name}')
             kc = builtin_class({'Dict': 'dict', 'List': 'list', 'Set': 'set'}[type(expr).__name__])
             self.use_class(kc)
-            self._add_pc(smt.cls_of(smt.static_id(v)) == kc.cid)
+            self._add_axiom(smt.cls_of(smt.static_id(v)) == kc.cid)
             self.known_cls[smt.simp(v).get_id()] = kc
         else:
             fr = Frame(None, owner.module)
